@@ -453,8 +453,12 @@ class StoreJudge:
                 self.v("C01", f"{len(self.inside)} items + {g} granted space reservations > capacity {self.cap}", "cap-exceeded")
         # C04, space side: the admission test is time-independent for these families
         pp = self.pending("put")
-        if pp and self.family == "slot" and any(e["ready_at"] >= 10 ** 9 for e in self.inside):
-            pp = []       # with items moving, admission also depends on the spacing test, re-evaluated by a kernel event
+        if pp and self.family == "slot":
+            # one item enters at a time: an unused granted reservation blocks admission; with items moving, admission
+            # also depends on the spacing test, which a kernel event re-evaluates at exactly entry + slot delay
+            moving = [e["ptime"] for e in self.inside if e["ready_at"] >= 10 ** 9]
+            if self.granted("put") or (moving and self.now <= max(moving) + self.sdelay):
+                pp = []
         if pp:
             room = True if self.cap is None else len(self.granted("put")) + len(self.inside) < self.cap
             if room:
